@@ -701,6 +701,9 @@ fn oracle(spec: &Spec, e: &Expect, hint0: Option<H>, trace: &[(Ans, Option<H>)],
     if n_r >= 1 && n_p >= 1 {
         rec.nontrivial();
     }
+    if matches!(name.as_str(), "zip" | "zip_longest") {
+        zip_arms(spec, trace.len(), rec);
+    }
     rec.count_n("answers:R", n_r as u64);
     rec.count_n("answers:P", n_p as u64);
     // ---- draining futures
@@ -784,6 +787,32 @@ fn oracle(spec: &Spec, e: &Expect, hint0: Option<H>, trace: &[(Ans, Option<H>)],
     }
     if let (Some(wl), Some(gl)) = (&e.log, &last_log) {
         rec.check(wl == gl, &format!("log@{name}"), &format!("want {wl} got {gl}"));
+    }
+}
+
+/// statistics only: which `(pull_left, pull_right)` arm each poll of a zip takes (buffer replayed)
+fn zip_arms(spec: &Spec, polls: usize, rec: &mut Recorder) {
+    let (Some((a, _, _)), Some((b, _, _))) = (spec.nat_src("A"), spec.nat_src("B")) else { return };
+    let kind = |s: &[Tok<u64>], i: &mut usize| -> char {
+        let k = match s.get(*i) {
+            Some(Tok::R(_)) => 'R',
+            Some(Tok::P) => 'P',
+            Some(Tok::E) | None => 'E',
+        };
+        *i += 1;
+        k
+    };
+    let (mut ia, mut ib) = (0usize, 0usize);
+    let mut buf: Option<bool> = None; // Some(true) = left item buffered
+    for _ in 0..polls {
+        let kl = if buf == Some(true) { 'R' } else { kind(&a, &mut ia) };
+        let kr = if buf == Some(false) { 'R' } else { kind(&b, &mut ib) };
+        rec.count(&format!("arm:{}:{kl}{kr}{}", spec.name, if buf.is_some() { "(buffered)" } else { "" }));
+        buf = match (kl, kr) {
+            ('R', 'P') => Some(true),
+            ('P', 'R') => Some(false),
+            _ => None,
+        };
     }
 }
 
